@@ -528,15 +528,13 @@ Section NoSilentProofs.
         apply error_report_displayed; try done. by apply not_included_only.
       Qed.
 
-      (* the obligation of props/C02.v: the classes whose report is DERIVED
-         ([class_derivation c <> Assumed]: nine of the ten; for eight of them
-         nothing about the report — that it exists, its level, its code, its
-         location — is in the event; for LiftFailure the event constrains the
-         file id inside the error value, which the mirrors do not return).
-         For DuplicateDefinition the event contains the report, its level and
-         its location, so [failure_classes_reported] is for it
-         [error_report_displayed] (the runner's filter law) and is not stated
-         as an obligation. *)
+      (* the general form (program and [rest] free), kept for the classes whose
+         event says nothing about [rest]; the obligation of props/C02.v is
+         Proofs.NoSilentMerger.tied_classes_reported (all ten classes, on the
+         project tied to the files that were read).  For DuplicateDefinition
+         the general event contains the report, its level and its location, so
+         [failure_classes_reported] is for it [error_report_displayed]; the
+         tied theorem instantiates it with the report of the Merger mirror. *)
       Theorem derived_classes_reported o order c r :
         class_derivation c <> Assumed ->
         wf_project (stage_project s pr sd rest) ->
@@ -706,7 +704,7 @@ Section NoSilentProofs.
     | ShSugarError => exists r0, r = item_report (SISugar r0)
     | ShParamCollision => exists dd, r = item_report (SILiftError dd LEParamCollision (PM.d_pfile dd))
     | ShLiftError => exists dd e, e <> LEParamCollision /\ r = item_report (SILiftError dd e (err_file dd))
-    | ShOtherInNamedFile =>
+    | ShOtherInNamedFile | ShDuplicate =>
         r_level r = Error /\ In r rest /\ exists z, In z (r_pfiles r) /\ file_is_named argv s z
     end.
   Proof.
@@ -727,10 +725,8 @@ End NoSilentProofs.
 Lemma all_classes_complete : forall c, In c all_classes.
 Proof. intros []; simpl; tauto. Qed.
 
-Lemma derived_classes_are : forall c,
-  class_derivation c = Derived <->
-  c <> LiftFailure /\ c <> DuplicateDefinition.
-Proof. intros []; simpl; split; intros H; try done; try (split; discriminate); destruct H as [H1 H2]; congruence. Qed.
+Lemma derived_classes_are : forall c, class_derivation c = Derived <-> c <> LiftFailure.
+Proof. intros []; simpl; split; intros H; try done; try discriminate. Qed.
 
-Lemma assumed_class_is : forall c, class_derivation c = Assumed <-> c = DuplicateDefinition.
-Proof. intros []; simpl; split; intros H; try done; discriminate. Qed.
+Lemma no_class_assumed : forall c, class_derivation c <> Assumed.
+Proof. intros []; discriminate. Qed.
